@@ -1,16 +1,12 @@
 import Driver.Sexp
 import Pcore.Model.Object
+import Pcore.Model.ObjectSchema
+import Pcore.Generated.ObjectSchema
 /-! Driver op for C17:  `obj (D0 D1 …) (A0 A1 …)`  (syntax in harness/c17/c17.go). -/
 namespace C17
 open Sx Pcore.Object
 
-/-- `\A[a-z_]\w*\z` -/
-def validName (s : String) : Bool :=
-  match s.toList with
-  | [] => false
-  | c :: cs =>
-    (c == '_' || ('a' ≤ c && c ≤ 'z')) &&
-    cs.all (fun c => c == '_' || ('a' ≤ c && c ≤ 'z') || ('A' ≤ c && c ≤ 'Z') || ('0' ≤ c && c ≤ '9'))
+def validName (s : String) : Bool := memberName s
 
 def nameOf : Sexp → Option String
   | .atom s => if validName s then some s else none
@@ -152,11 +148,12 @@ def valStr : Val → String
 def hashStr (es : List (String × Val)) : String :=
   "(h" ++ String.join (es.map fun (k, v) => " (" ++ k ++ " " ++ valStr v ++ ")") ++ ")"
 
-/-- definitions in order; stops at the first rejected one -/
+/-- definitions in order (schema assertion against the regenerated member table, then the definition proper); stops at
+    the first rejected one -/
 def runDefs : List OType → List Def → List String × Option (List OType)
   | env, [] => ([], some env)
   | env, d :: ds =>
-    match define env d with
+    match defineChecked Pcore.Generated.objectSchema.members env d with
     | .error c => ([c.toString], none)
     | .ok t =>
       let (rs, r) := runDefs (env ++ [t]) ds
